@@ -25,7 +25,7 @@ impl Deserialize for TreasuryWithdrawals {
                 cbor_event::Len::Len(n) => table.len() < n as usize,
                 cbor_event::Len::Indefinite => true,
             } {
-                if is_break_tag(raw, "TreasuryWithdrawals")? {
+                if is_break_tag(raw, len, "TreasuryWithdrawals")? {
                     break;
                 }
                 let key = RewardAddress::deserialize(raw)?;
